@@ -90,7 +90,17 @@ Inductive accept_res :=
 Definition over_limit (strict : bool) (idx max : N) : bool :=
   if strict then max <=? idx else max <? idx.
 
-Definition try_accept_sid (strict : bool) (s : rsid) (d : dir) (idx : N) : rsid * accept_res * option N :=
+(* how a limit returned by the strategy is applied.  [mono] = false is the code before the F27
+   repair (stored and advertised whatever it is); true = RemoteStreamIds::raise_limit (only an
+   increase is applied and advertised) *)
+Definition raise_limit (mono : bool) (max : N * N) (d : dir) (m : N) : (N * N) * option N :=
+  if mono then (if pget max d <? m then (pset max d m, Some m) else (max, None))
+  else (pset max d m, Some m).
+
+Definition apply_up (mono : bool) (max : N * N) (d : dir) (up : option N) : (N * N) * option N :=
+  match up with Some m => raise_limit mono max d m | None => (max, None) end.
+
+Definition try_accept_sid (strict mono : bool) (s : rsid) (d : dir) (idx : N) : rsid * accept_res * option N :=
   let max := pget (r_max s) d in
   if over_limit strict idx max then (s, AccExceed max, None)
   else
@@ -98,23 +108,24 @@ Definition try_accept_sid (strict : bool) (s : rsid) (d : dir) (idx : N) : rsid 
     if idx <? cur then (s, AccOld, None)
     else
       let '(c', up) := ctrl_on_accept (r_ctrl s) d idx in
-      let max' := match up with Some m => pset (r_max s) d m | None => r_max s end in
-      (mkrsid max' (pset (r_next s) d (idx + 1)) c', AccNew cur idx, up).
+      let '(max', adv) := apply_up mono (r_max s) d up in
+      (mkrsid max' (pset (r_next s) d (idx + 1)) c', AccNew cur idx, adv).
 
 (* on_end_of_stream for a stream of the peer's role (the caller checks the role) *)
-Definition on_end_of_stream (s : rsid) (d : dir) (idx : N) : rsid * option N :=
+Definition on_end_of_stream (mono : bool) (s : rsid) (d : dir) (idx : N) : rsid * option N :=
   let '(c', up) := ctrl_on_end (r_ctrl s) d idx in
-  match up with
-  | Some m => (mkrsid (pset (r_max s) d m) (r_next s) c', Some m)
-  | None => (mkrsid (r_max s) (r_next s) c', None)
-  end.
+  let '(max', adv) := apply_up mono (r_max s) d up in
+  (mkrsid max' (r_next s) c', adv).
 
-Definition recv_streams_blocked (s : rsid) (d : dir) (v : N) : rsid * option N :=
-  let '(c', up) := ctrl_on_blocked (r_ctrl s) d v in
-  match up with
-  | Some m => (mkrsid (pset (r_max s) d m) (r_next s) c', Some m)
-  | None => (mkrsid (r_max s) (r_next s) c', None)
-  end.
+(* recv_streams_blocked.  Before the repair the strategy saw the value of the peer's frame; after
+   it a value below the limit in force is ignored and the strategy sees the limit in force *)
+Definition recv_streams_blocked (mono : bool) (s : rsid) (d : dir) (v : N) : rsid * option N :=
+  let cur := pget (r_max s) d in
+  if mono && (v <? cur) then (s, None)
+  else
+    let '(c', up) := ctrl_on_blocked (r_ctrl s) d (if mono then cur else v) in
+    let '(max', adv) := apply_up mono (r_max s) d up in
+    (mkrsid max' (r_next s) c', adv).
 
 (* NeedCreate iterator: indices first..last *)
 Fixpoint range_nat (start : N) (n : nat) : list N :=
